@@ -1,4 +1,5 @@
 //! Solver harnesses: decoding untrusted bytes is total (C04).
+#![cfg_attr(kani, feature(allocator_api))]
 #![allow(clippy::all, dead_code, unused_imports, unused_macros)]
 
 #[path = "../../vsrc.rs"]
@@ -9,6 +10,9 @@ pub mod vsrc;
 pub mod util;
 
 pub mod total;
+
+#[cfg(not(kani))]
+pub mod alloc_track;
 
 #[cfg(not(kani))]
 include!(concat!(env!("OUT_DIR"), "/registry.rs"));
